@@ -44,6 +44,10 @@ func c07Extra(c *Ctx, w *prove.World, scope []*ssa.Function, inScope map[*ssa.Fu
 						r.Fail("assert", fname+": "+ai.render(x.Pos(), x.String()), pos, "type assertion without comma-ok panics when the dynamic type differs")
 					}
 				case *ssa.Panic:
+					if !x.Pos().IsValid() {
+						// synthesised by the SSA builder (range-over-func misuse check), not source code
+						continue
+					}
 					r.Fail("panic", fname+": panic(...)", pos, "explicit panic reachable from a decoder entry point")
 				case *ssa.SliceToArrayPointer:
 					r.Fail("panic", fname+": slice-to-array conversion", pos, "conversion panics when the slice is shorter than the array")
